@@ -724,7 +724,7 @@ fn main() {
     ];
     enumerate_schema(&ctx, &current, &mut rep);
     let ntypes = ctx.types.len();
-    let per_type: u64 = if thorough { 2000 } else { 40 };
+    let per_type: u64 = if thorough { 3000 } else { 100 };
     let cases = ntypes as u64 * per_type;
     // enumerated pre-pass: every type once with every field set and once all-default
     let mut pre = Agg::default();
